@@ -119,6 +119,42 @@ class Index:
                 self.by_relpath[rel] = m
         for m in self.modules.values():
             self._scan_module(m)
+        self.final_fields = self._final_fields()
+
+    def _final_fields(self):
+        """Fields (name-mangled) that are only ever assigned as `self.<f> = ...` inside an `__init__`: once an object is
+        constructed nobody rebinds them, so a call that may modify anything still leaves them as they are.  (Reflection and
+        stores through a mangled name from host code are excluded by the encapsulation assumption.)"""
+        in_init, elsewhere = set(), set()
+        for m in self.modules.values():
+            tree = getattr(m, "tree", None)
+            if tree is None:
+                continue
+
+            def visit(node, cls, fn):
+                for ch in ast.iter_child_nodes(node):
+                    if isinstance(ch, ast.ClassDef):
+                        visit(ch, ch.name, None)
+                        continue
+                    if isinstance(ch, (ast.FunctionDef, ast.AsyncFunctionDef)):
+                        visit(ch, cls, ch)
+                        continue
+                    if isinstance(ch, ast.Attribute) and isinstance(ch.ctx, (ast.Store, ast.Del)):
+                        name = mangle(ch.attr, cls)
+                        first = fn.args.args[0].arg if fn is not None and fn.args.args else None
+                        ok = (fn is not None and fn.name == "__init__" and isinstance(ch.ctx, ast.Store)
+                              and isinstance(ch.value, ast.Name) and ch.value.id == first)
+                        (in_init if ok else elsewhere).add(name)
+                    if isinstance(ch, ast.Call) and isinstance(ch.func, ast.Name) and ch.func.id in ("setattr", "delattr"):
+                        if len(ch.args) >= 2 and isinstance(ch.args[1], ast.Constant) and isinstance(ch.args[1].value, str):
+                            elsewhere.add(mangle(ch.args[1].value, cls))
+                        else:
+                            elsewhere.add("*")
+                    visit(ch, cls, fn)
+            visit(tree, None, None)
+        if "*" in elsewhere:
+            return set()
+        return in_init - elsewhere
 
     def _abs_import(self, m, node):
         if node.level == 0:
